@@ -350,7 +350,7 @@ func (p *Program) Explore(h *Harness) *Report {
 			outcome := e.runPath(sp, fn, h)
 			var sample *PathSample
 			mu.Lock()
-			needSample := outcome.kind == "completed" && len(rep.Samples)+rep.samplePending < h.SampleModels && len(e.inputs) > 0
+			needSample := outcome.kind == "completed" && len(rep.Samples)+rep.samplePending < h.SampleModels
 			if needSample {
 				rep.samplePending++
 			}
@@ -505,4 +505,38 @@ func (e *Exec) runPath(sp *ssa.Package, fn *ssa.Function, h *Harness) (out pathO
 		h.OnPathEnd(e)
 	}
 	return pathOutcome{"completed", ""}
+}
+
+// SliceTerms returns the scalar cells of a slice value.
+func SliceTerms(v Value) ([]*Term, bool) {
+	sl, ok := v.(*SliceV)
+	if !ok || sl == nil || !sl.Len.IsConst() {
+		return nil, false
+	}
+	n := int(sl.Len.C)
+	if n > len(sl.A) {
+		return nil, false
+	}
+	out := make([]*Term, n)
+	for i := 0; i < n; i++ {
+		t, ok := sl.A[i].(*Term)
+		if !ok {
+			return nil, false
+		}
+		out[i] = t
+	}
+	return out, true
+}
+
+// GlobalValue returns the current value of a package-level variable.
+func (e *Exec) GlobalValue(pkgPath, name string) Value {
+	for _, sp := range e.Prog.AllPackages() {
+		if sp.Pkg.Path() != pkgPath {
+			continue
+		}
+		if g, ok := sp.Members[name].(*ssa.Global); ok {
+			return *e.globals[g]
+		}
+	}
+	return nil
 }
